@@ -205,13 +205,16 @@ Definition get_coordinates (fuel : nat) (fl : flags) (s : ws) : wres (cseq * fla
    hasZ is decided lazily by !isnan(z)) or a CoordinateXYZM (flags = !isnan(z), !isnan(m)). *)
 Definition mp_point (sm : bool) (c : coord) : geom :=
   GPoint (mkSeq 1 (qx c) (qy c) (qx c) (qy c) (zok c) (sm && mok c) true).
+(* one coordinate of that form: the coordinate, then the element and the point it becomes *)
+Definition read_point_coord (fl : flags) (s : ws) : wres (coord * flags) :=
+  do cf <- read_coord fl s ; fun s2 => WOk cf (wupd (w_node 1) (wupd w_elem s2)).
 Fixpoint mp_tail (fuel : nat) (sm : bool) (fl : flags) (s : ws) : wres (list geom * flags) :=
   do comma <- closer_or_comma s ; fun s1 =>
   if comma then
     match fuel with
     | O => WFuel
-    | S f => do cf <- read_coord fl s1 ; fun s2 =>
-             do lf <- mp_tail f sm (snd cf) (wupd (w_node 1) (wupd w_elem s2)) ; fun s3 => WOk (mp_point sm (fst cf) :: fst lf, snd lf) s3
+    | S f => do cf <- read_point_coord fl s1 ; fun s2 =>
+             do lf <- mp_tail f sm (snd cf) s2 ; fun s3 => WOk (mp_point sm (fst cf) :: fst lf, snd lf) s3
     end
   else WOk ([], fl) s1.
 
@@ -307,8 +310,8 @@ with read_body (fuel : nat) (k : Z) (fl : flags) (d : Z) (s : ws) {struct fuel} 
       if k =? 4 then
         let t := peek s1 in
         if is_num_tok t then
-          do cf <- read_coord fl1 s1 ; fun s2 =>
-          do lf <- mp_tail f (fm fl1) (snd cf) (wupd (w_node 1) (wupd w_elem s2)) ; fun s3 =>
+          do cf <- read_point_coord fl1 s1 ; fun s2 =>
+          do lf <- mp_tail f (fm fl1) (snd cf) s2 ; fun s3 =>
           let l := mp_point (fm fl1) (fst cf) :: fst lf in
           let csz := 1 + Z.of_nat (List.length l) in
           WOk (GNest 4 l, csz, snd lf) (wupd (w_node csz) s3)
@@ -348,7 +351,8 @@ with read_list (fuel : nat) (ek : ekind) (fl : flags) (d : Z) (s : ws) {struct f
   | S f =>
     do r <- read_elem f ek fl d s ; fun s1 =>
     let '(g, z, fl1) := r in
-    do comma <- closer_or_comma (wupd w_elem s1) ; fun s2 =>
+    do comma <- closer_or_comma s1 ; fun s2 =>
+    let s2 := wupd w_elem s2 in          (* the element is counted once the token after it has been read *)
     if comma then
       do r2 <- read_list f ek fl1 d s2 ; fun s3 => let '(l, zs, fl2) := r2 in WOk (g :: l, z + zs, fl2) s3
     else WOk ([g], z, fl1) s2
